@@ -46,7 +46,8 @@ def run(ctx):
     for ti in range(ntrees):
         rng = ctx.rng.fork()
         base = os.path.join(ctx.scratch, "t%d" % ti)
-        tree = treegen.gen_tree(rng, base, nroots=1 + rng.below(3), nfiles=6 + rng.below(30), hardlinks=True)
+        tree = treegen.gen_tree(rng, base, nroots=1 + rng.below(3), nfiles=6 + rng.below(30), hardlinks=True,
+                                names="hostile" if ti % 3 == 1 else "plain")
         roots = tree.roots
         cache_home = os.path.join(ctx.scratch, "cache%d" % ti)
         env0 = {"FCLONES_VERIF_DISK_KIND": "ssd", "XDG_CACHE_HOME": cache_home, "HOME": cache_home}
@@ -88,7 +89,7 @@ def run(ctx):
 
         for r in range(repeats):
             check("repeat=%d" % r, "body", [], {})
-        specs = THREAD_SPECS if not ctx.quick else [THREAD_SPECS[i] for i in (0, 1, 2, 4)]
+        specs = THREAD_SPECS if not ctx.quick else [THREAD_SPECS[i] for i in (0, 1, 2, 4, 6)]
         for spec in specs:
             check("threads=" + " ".join(spec[1::2]), "body", spec, {})
         if len(roots) > 1:
